@@ -565,6 +565,56 @@ def check(model, rep, tier):
               'the unconverted source', {'constructs': bad}, line=fi.node.lineno,
               witness='to_code of a function decorated with functools.wraps')
 
+  # a converter that replaces a node of a kind that also occurs as a binding or
+  # deletion target (Name, Attribute, Subscript, Starred, List, Tuple) by a
+  # generated expression must do so in Load context only: `[a, b] = v` with the
+  # list replaced by a call is `ag__.new_list([a, b]) = v`
+  CTX_KINDS = ('Name', 'Attribute', 'Subscript', 'Starred', 'List', 'Tuple')
+  n_ctxh = 0
+  for c_ in sorted(model.classes(), key=lambda c: c.site):
+    if not c_.module.rel.startswith('malt/converters/') or not c_.is_ast_visitor():
+      continue
+    for k_ in CTX_KINDS:
+      h_ = c_.methods.get('visit_' + k_)
+      if h_ is None:
+        continue
+      v_ = h_.view()
+      prm_ = h_.params()[0]
+      reps_ = [x for x in ast.walk(v_) if isinstance(x, ast.Call) and (
+          core.dotted(x.func) or '').startswith('templates.replace')]
+      if not reps_:
+        continue
+      n_ctxh += 1
+      okc, facts_c = True, []
+      for x in reps_:
+        guarded = False
+        for pol, tst in formula.path_condition(v_, x):
+          for t_ in ([tst] if not (isinstance(tst, ast.BoolOp) and (
+              (pol == 'T' and isinstance(tst.op, ast.And)) or
+              (pol == 'F' and isinstance(tst.op, ast.Or)))) else tst.values):
+            neg = False
+            while isinstance(t_, ast.UnaryOp) and isinstance(t_.op, ast.Not):
+              t_, neg = t_.operand, not neg
+            if not (isinstance(t_, ast.Call) and core.dotted(t_.func) == 'isinstance'
+                    and len(t_.args) == 2 and core.norm(t_.args[0]) in (
+                        prm_ + '.ctx', "getattr(%s, 'ctx', None)" % prm_)):
+              continue
+            kinds = {core.dotted(k).split('.')[-1] for k in (
+                t_.args[1].elts if isinstance(t_.args[1], ast.Tuple) else [t_.args[1]])}
+            holds = (pol == 'T') != neg
+            if (holds and kinds == {'Load'}) or (not holds and {'Store', 'Del'} <= kinds):
+              guarded = True
+        facts_c.append({'replacement_at_line': x.lineno, 'load_only': guarded})
+        okc = okc and guarded
+      rep.check(okc, 'TREE-CTX', '%s:replaces-loads-only' % h_.site,
+                'a %s is also a binding / deletion target: replacing it by a generated '
+                'expression outside Load context puts a call where the grammar wants '
+                'a target -- the generated module does not compile' % k_,
+                {'replacements': facts_c}, line=h_.node.lineno,
+                witness='[a, b] = pair   /   for [a, b] in pairs: ...   (LISTS feature)')
+  if n_ctxh < 3:
+    raise core.AnalysisError('converter handlers of ctx-bearing node kinds not found')
+
   # ---------------------------------------------------------------- dependencies
   rep.depends('C09', ['IFACE-ERASE'],
               'the erased defaults are inserted into the tree directly (no template '
